@@ -13,7 +13,7 @@ EXPLANATION = (
     'delta header carries source_data.len(), signature.file_size and the BLAKE3 of the whole source, and that object is returned; (R4) only the two delta functions '
     'emit ops; the single-file command and the CLI chain call these engines; the three signature producers hash zero-based sequential chunks of block_size; (R5) '
     'push_copy merges only contiguous copies with a checked length; (R6) both engines satisfy the same rule vector; (R7) the CLI writes and reads back the same '
-    'types. patch reproduce-or-reject is C05. Not decided: equality of the reconstructed bytes; that every copy lies inside the basis (needs the value fact that only '
+    'types. (R8) sync_files publishes either a whole write of the patched output or, when the destination is assembled from a copy of the old file plus partial writes, a file that passed set_len on every path to the rename except under an edge that has just found the two lengths equal (that the assembled bytes equal the output is NO-VERDICT). patch reproduce-or-reject is C05. Not decided: equality of the reconstructed bytes; that every copy lies inside the basis (needs the value fact that only '
     'full blocks match).')
 ASSUMPTIONS = ['BLAKE3 collision freeness', 'bincode/serde round-trip of Signature and Delta']
 
